@@ -4,9 +4,11 @@ CONSTANTS
   MaxDepth = 3
   MaxIds = 1
   Pfx = {"p", "q:"}
-  Pool = {"z", "o"}
+  Pool = {"z"}
+  CopyImmediates = FALSE
+  MaxEnvs = 2
   MaxTicks = 2
-  StartLibs = {1, 2, 3}
+  StartLibs = {1, 2}
 INVARIANTS
   LawWF LawAgree LawNoInvent LawBindingsExist LawPrefixDrop LawPartition LawRename LawSwap
 CHECK_DEADLOCK FALSE
